@@ -3,9 +3,11 @@
   (domain.go, forward.go, agent.go) as instances of the generic keyed table of
   MM/Model/C08.lean.
 
-  Names are byte strings.  Case folding is ASCII (`strings.ToLower` restricted to bytes
-  below 0x80 — what domain names consist of; the generator stays inside that alphabet,
-  Go's Unicode folding outside it is not modelled).
+  Names are byte strings.  The domain table relies on two standard-library functions,
+  `strings.ToLower` and `strings.TrimSpace`; the model and every theorem are parametric in them
+  (`Str`), so "case-insensitively" means "equal after `strings.ToLower`", whatever that function
+  does to non-ASCII or ill-formed input.  `asciiStr` is their behaviour on ASCII, implemented
+  here; for other input the line-protocol oracle is told Go's own results (`oracle` op).
 -/
 import MM.Model.C08
 
@@ -38,6 +40,14 @@ def splitDot : Bytes → Option (Bytes × Bytes)
       | some (l, r) => some (c :: l, r)
       | none => none
 
+/-- `strings.ToLower` and `strings.TrimSpace` as the domain table uses them. -/
+structure Str where
+  fold : Bytes → Bytes
+  trim : Bytes → Bytes
+
+/-- their behaviour on ASCII strings -/
+def asciiStr : Str := ⟨lower, trimSpace⟩
+
 /-! ## domain table (`routing.DomainTable`) -/
 
 /-- `Pattern`, `IsWildcard`, `BaseDomain` of a `DomainRoute`, as the caller supplies them. -/
@@ -51,39 +61,39 @@ deriving DecidableEq, Repr, Inhabited
 abbrev DKey := Bool × Bytes
 
 /-- `routeMapAndKey(pattern, isWildcard, baseDomain)` -/
-def domKey (p : DomPay) : DKey :=
-  if p.isWild then (true, lower p.base) else (false, lower p.pattern)
+def domKey (S : Str) (p : DomPay) : DKey :=
+  if p.isWild then (true, S.fold p.base) else (false, S.fold p.pattern)
 
-def domCfg : Cfg DKey DomPay where
+def domCfg (S : Str) : Cfg DKey DomPay where
   valid := fun p => !p.pattern.isEmpty
   store := id
-  keyOf := domKey
+  keyOf := domKey S
   byHop := false
 
 abbrev DTable := KTable DKey DomPay
 
 /-- `ParseDomainPattern(pattern)` -/
-def parsePattern (pattern : Bytes) : Bool × Bytes :=
-  let p := trimSpace pattern
+def parsePattern (S : Str) (pattern : Bytes) : Bool × Bytes :=
+  let p := S.trim pattern
   match p with
   | 42 :: 46 :: rest => (true, rest)      -- strings.HasPrefix(p, "*.")
   | _ => (false, p)
 
 /-- the payload `Manager.ProcessDomainRouteAdvertise` / `AddLocalDomainRoute` build from a pattern -/
-def payOfPattern (pattern : Bytes) : DomPay :=
-  let (w, b) := parsePattern pattern
+def payOfPattern (S : Str) (pattern : Bytes) : DomPay :=
+  let (w, b) := parsePattern S pattern
   ⟨pattern, w, b⟩
 
 /-- key used by `RemoveRoute(pattern, origin)` / `HasRoute` -/
-def domRemoveKey (pattern : Bytes) : DKey := domKey (payOfPattern pattern)
+def domRemoveKey (S : Str) (pattern : Bytes) : DKey := domKey S (payOfPattern S pattern)
 
 /-- `DomainTable.RemoveRoute` (an empty pattern is refused) -/
-def domRemove (t : DTable) (pattern : Bytes) (o : Nat) : DTable × Bool :=
-  if pattern.isEmpty then (t, false) else removeRoute t (domRemoveKey pattern) o
+def domRemove (S : Str) (t : DTable) (pattern : Bytes) (o : Nat) : DTable × Bool :=
+  if pattern.isEmpty then (t, false) else removeRoute t (domRemoveKey S pattern) o
 
 /-- `DomainTable.lookupUnlocked(domain)` -/
-def domLookup (t : DTable) (domain : Bytes) : Option (Entry DomPay) :=
-  let d := lower domain
+def domLookup (S : Str) (t : DTable) (domain : Bytes) : Option (Entry DomPay) :=
+  let d := S.fold domain
   match (get t (false, d)).head? with
   | some r => some r                                      -- 1. exact match first
   | none =>
@@ -94,12 +104,12 @@ def domLookup (t : DTable) (domain : Bytes) : Option (Entry DomPay) :=
     | none => none
 
 /-- executable form of "this stored route applies to this name" (`Matches` in Props/C09.lean) -/
-def matchesB (p : DomPay) (d : Bytes) : Bool :=
+def matchesB (S : Str) (p : DomPay) (d : Bytes) : Bool :=
   if p.isWild then
-    match splitDot (lower d) with
-    | some (l, b) => !l.isEmpty && !b.isEmpty && b == lower p.base
+    match splitDot (S.fold d) with
+    | some (l, b) => !l.isEmpty && !b.isEmpty && b == S.fold p.base
     | none => false
-  else lower p.pattern == lower d
+  else S.fold p.pattern == S.fold d
 
 /-! ## forward-key table (`routing.ForwardTable`) -/
 
